@@ -36,7 +36,8 @@ Abstractions
   length checks (mirrored), the fee schedule assertion is comma-ok (mirrored as `feeOk`).  A nil
   `*Batch`, nil `BatchTX` or nil `*Account` argument panics in Go; callers never pass those and the
   model's argument types cannot express them (not covered).
-* `DB.DeleteOrder` is outside the property's operation alphabet and not modelled.
+* `DB.DeleteOrder` is modelled although it is outside the property's operation alphabet: it is the one way a
+  staged order can be missing from the main bucket at completion (`copyOrder` then re-creates it).
 -/
 namespace Pool.C06
 open Pool.Gen.C06
@@ -55,6 +56,11 @@ def upsert (k : Key) (v : α) : List (Key × α) → List (Key × α)
   | (k', v') :: r => if k = k' then (k, v) :: r else (k', v') :: upsert k v r
 
 def keys (l : List (Key × α)) : List Key := l.map (·.1)
+
+/-- `DeleteBucket` / `Delete` of a key -/
+def erase (k : Key) : List (Key × α) → List (Key × α)
+  | [] => []
+  | (k', v) :: r => if k = k' then erase k r else (k', v) :: erase k r
 
 /-! ### outcomes -/
 
@@ -128,12 +134,26 @@ def storeA (a : Acct) : Except Err Acct := if serPanics a then .error .panicNilL
 
 /-! ### orders and events -/
 
+/-- One order sub-bucket as `fetchOrderTX` + the callbacks of `GetOrder`/`updateOrder`/`copyOrder` read it.
+Go keeps four keys per order: `order` (fixed-size encoding: state, units, unfilled, type, …),
+`order-min-units-match`, `order-tier` (bids only) and `order-tlv` (channel type, allowed/blocked node ids, auction type,
+public flag, bid: self channel balance, sidecar ticket, unannounced/zero-conf flags, ask: announcement /
+confirmation constraints).  `updateOrder` decodes all of them, applies the modifiers and REWRITES all of them into
+`dst`; `copyOrder` decodes and rewrites all of them into `dst` (`Gen.C06.updateOrderStores`, `copyOrderStores`,
+`…Decodes`; theorem `facts_order_keys`).  The record therefore moves as a whole; `extras` is an opaque tag for the
+contents of the TLV stream. -/
 structure Ord where
   state : Nat
   unfilled : Nat   -- Kit.UnitsUnfulfilled
   units : Nat      -- Kit.Units
-  minMatch : Nat   -- Kit.MinUnitsMatch
+  minMatch : Nat   -- Kit.MinUnitsMatch       (key `order-min-units-match`)
+  isBid : Bool := false   -- order type       (in the fixed-size encoding)
+  tier : Nat := 0         -- Bid.MinNodeTier   (key `order-tier`, bids only)
+  extras : Nat := 0       -- tag of the TLV-encoded optional terms (key `order-tlv`)
 deriving DecidableEq, Repr, Inhabited
+
+/-- the terms no modifier can change -/
+def Ord.fixed (o : Ord) : Nat × Nat × Bool × Nat × Nat := (o.units, o.minMatch, o.isBid, o.tier, o.extras)
 
 /-- `order.Modifier` constructors (`order/interfaces.go`), see `Gen.C06.orderModifierCtors` -/
 inductive OMod where
@@ -179,6 +199,10 @@ structure DB where
   pendingSnap : Option Snap := none
   snaps : List Snap := []
   index : List (Nat × Nat) := []
+  /-- orders whose sub-bucket has no `event-ref` sub-bucket: `copyOrder` re-created the order bucket of an order
+  that had been deleted from the main bucket (`storeOrderTX(dst, …, nil)` = `CreateBucketIfNotExists` without
+  event).  `GetOrderEvents` fails for them until the next `updateOrder` creates the refs bucket. -/
+  noRefs : List Key := []
 deriving DecidableEq, Repr
 
 /-- a freshly created database (`clientdb.New` → `initDB`): all top-level buckets exist and are empty -/
@@ -210,6 +234,14 @@ def submitOrderTx (n : Key) (o : Ord) (db : DB) : Except Err DB :=
   | some _ => .error .orderExists
   | none => .ok { db with orders := upsert n o db.orders, events := db.events ++ [(n, .created)] }
 
+/-- `DB.DeleteOrder` body: the whole order sub-bucket (order, extra keys, event refs) is removed.  "Note: this
+method deletes the order without checking if it is referenced somewhere else (e.g. pending batch)." -/
+def deleteOrderTx (n : Key) (db : DB) : Except Err DB :=
+  match lookup n db.orders with
+  | none => .error .noOrder
+  | some _ => .ok { db with orders := erase n db.orders, events := db.events.filter (fun p => p.1 != n),
+                            noRefs := db.noRefs.filter (fun k => k != n) }
+
 /-- loop of `DB.UpdateOrders` (`updateOrder(rootBucket, rootBucket, …)`): source = destination = main -/
 def updateOrdersLoop : List (Key × List OMod) → List (Key × Ord) → List (Key × Evt) →
     Except Err (List (Key × Ord) × List (Key × Evt))
@@ -222,7 +254,9 @@ def updateOrdersLoop : List (Key × List OMod) → List (Key × Ord) → List (K
 def updateOrdersTx (ns : List Key) (ms : List (List OMod)) (db : DB) : Except Err DB :=
   match updateOrdersLoop (ns.zip ms) db.orders db.events with
   | .error e => .error e
-  | .ok (os, ev) => .ok { db with orders := os, events := ev }
+  | .ok (os, ev) =>
+    -- every updated order got an event, i.e. an `event-ref` sub-bucket (CreateBucketIfNotExists)
+    .ok { db with orders := os, events := ev, noRefs := db.noRefs.filter (fun k => !ns.contains k) }
 
 /-- `DB.UpdateOrder` -/
 def updateOrderTx (n : Key) (m : List OMod) (db : DB) : Except Err DB := updateOrdersTx [n] [m] db
@@ -310,7 +344,8 @@ def storePendingBatchTx (a : StageArgs) (db : DB) : Except Err DB :=
   match stageOrdersLoop db.orders (a.orders.zip a.orderMods) [] db.events [] with
   | .error e => .error e
   | .ok (po, ev, updOrders) =>
-    let db := { db with pendingOrders := some po, events := ev }
+    let db := { db with pendingOrders := some po, events := ev,
+                        noRefs := db.noRefs.filter (fun k => !a.orders.contains k) }
     match stageAcctsLoop db.accounts (a.accounts.zip a.acctMods) [] [] with
     | .error e => .error e
     | .ok (pa, updAccts) =>
@@ -356,6 +391,8 @@ def applyBatchUpdates (db : DB) : Except Err DB :=
       match db.pendingOrders with
       | none => .error .bucketMissing
       | some po =>
+        -- copyOrder re-creates the bucket of an order missing from main, without event refs
+        let db := { db with noRefs := db.noRefs ++ (keys po).filter (fun k => (lookup k db.orders).isNone) }
         let db := { db with orders := applyOrders po db.orders }
         let db := { db with pendingOrders := none }
         .ok { db with pendingId := none }
@@ -379,11 +416,16 @@ def markBatchCompleteTx (db : DB) : Except Err DB :=
 
 /-! ### observers -/
 
-/-- `DB.PendingBatchSnapshot` (`len(snapshotBytes) == 0 → ErrNoPendingBatch`) -/
+/-- `completeSnapshotOrders` (used by `fetchPendingBatchSnapshot` and `fetchLocalBatchSnapshot`) completes every
+snapshot order from the MAIN order bucket (min units match, TLV, node tier): `ErrNoOrder` when one of them has
+been deleted -/
+def snapReadable (db : DB) (s : Snap) : Bool := (keys s.orders).all (fun n => (lookup n db.orders).isSome)
+
+/-- `DB.PendingBatchSnapshot` (`len(snapshotBytes) == 0 → ErrNoPendingBatch`; own orders completed from main) -/
 def pendingBatchSnapshot (db : DB) : Except Err Snap :=
   match db.pendingSnap with
   | none => .error .noPending
-  | some s => .ok s
+  | some s => if snapReadable db s then .ok s else .error .noOrder
 
 /-- `DB.GetLocalBatchSnapshot(id)` -/
 def getLocalBatchSnapshot (db : DB) (id : Nat) : Except Err Snap :=
@@ -392,12 +434,18 @@ def getLocalBatchSnapshot (db : DB) (id : Nat) : Except Err Snap :=
   | some seq =>
     match db.snaps[seq - 1]? with
     | none => .error .snapMissing
-    | some s => .ok s
+    | some s => if snapReadable db s then .ok s else .error .noOrder
+
+/-- `DB.GetLocalBatchSnapshots()`: fails as a whole when one snapshot is not readable -/
+def getLocalBatchSnapshots (db : DB) : Except Err (List Snap) :=
+  if db.snaps.all (snapReadable db) then .ok db.snaps else .error .noOrder
 
 def getOrderEvents (db : DB) (n : Key) : Except Err (List Evt) :=
   match lookup n db.orders with
   | none => .error .noOrder
-  | some _ => .ok ((db.events.filter (fun p => p.1 == n)).map (·.2))
+  | some _ =>
+    if db.noRefs.contains n then .error .other      -- "order event sub bucket not found"
+    else .ok ((db.events.filter (fun p => p.1 == n)).map (·.2))
 
 /-! ### `account/manager.go` HandleAccountSpend, multi-sig spend clause
 
@@ -414,6 +462,31 @@ def spendPendingClause (db : DB) : Except Err DB :=
   | .error .noPending => .ok db
   | .error e => .error e
   | .ok _ => markBatchCompleteTx db
+
+/-- classification of the spending input's witness (`poolscript.IsExpirySpend`/`IsTaprootExpirySpend`,
+`IsMultiSigSpend`/`IsTaprootMultiSigSpend`, neither) -/
+inductive Witness where
+  | expiry | multiSig | unknown
+deriving DecidableEq, Repr
+
+/-- the final `UpdateAccount(account, StateClosed, HeightHint(spendHeight), LatestTx(spendTx))` -/
+def closeMods (tx h : Nat) : List AMod := [.state acctStateClosed, .heightHint h, .latestTx tx]
+
+/-- `manager.HandleAccountSpend(traderKey, spendDetails)` for a spending transaction that does NOT recreate the
+account output (the recreate branch hands over to `resumeAccount`, i.e. to the chain watcher, and writes nothing
+here).  Three store calls in sequence, not one transaction: `Account`, (multi-sig only) the pending-batch clause
+`PendingBatch` + `MarkBatchComplete` + `Account` under `pendingBatchMtx`, then `UpdateAccount` closing the account. -/
+def handleAccountSpend (k : Key) (w : Witness) (tx h : Nat) (db : DB) : DB × Option Err :=
+  match lookup k db.accounts with
+  | none => (db, some .noAcct)
+  | some _ =>
+    match w with
+    | .unknown => (db, some .other)                       -- "unknown spend witness"
+    | .expiry => commit db (updateAccountTx k (closeMods tx h) db)
+    | .multiSig =>
+      match commit db (spendPendingClause db) with
+      | (db1, some e) => (db1, some e)
+      | (db1, none) => commit db1 (updateAccountTx k (closeMods tx h) db1)
 
 /-! ### `auctioneer/batch.go` checkPendingBatch -/
 
@@ -473,10 +546,12 @@ inductive Op where
   | complete
   | discard
   | updateOrder (n : Key) (mods : List OMod)
+  | deleteOrder (n : Key)
   | updateOrders (ns : List Key) (mods : List (List OMod))
   | updateAccount (k : Key) (mods : List AMod)
   | reopen
   | spend                                   -- HandleAccountSpend's pending-batch clause
+  | accountSpend (k : Key) (w : Witness) (tx h : Nat)   -- the whole HandleAccountSpend (closing branch)
   | reconnect (rpc : Rpc) (removeOk : Bool) -- checkPendingBatch against the real DB
 deriving DecidableEq, Repr
 
@@ -488,10 +563,12 @@ def step (db : DB) : Op → DB × Option Err
   | .complete => commit db (markBatchCompleteTx db)
   | .discard => commit db (deletePendingBatchTx db)
   | .updateOrder n m => commit db (updateOrderTx n m db)
+  | .deleteOrder n => commit db (deleteOrderTx n db)
   | .updateOrders ns ms => commit db (updateOrders ns ms db)
   | .updateAccount k m => commit db (updateAccountTx k m db)
   | .reopen => (db, none)                   -- close + `clientdb.New` on the same file (trusted: identity)
   | .spend => commit db (spendPendingClause db)
+  | .accountSpend k w tx h => handleAccountSpend k w tx h db
   | .reconnect rpc rm => ((reconnect rpc rm db).1, none)
 
 def run (db : DB) : List Op → DB
